@@ -115,70 +115,75 @@ def check(ctx):
     pushes = calls(task, ("Vec::<T, A>::push", "Vec::push"))
     replaces = [(bb, i) for bb, i, s in an.mem_writes if not task.is_noise(s) and "Target" in str(task.locals[s.place.local].get("s", "")) or False]
     ctx.floor(RP, "push into the cache", len(pushes), 1, task.loc)
+    # the two comparisons `state == "Ready"` / `state == "Allocated"`, wherever their results go (a switch, `||` kept in a variable,
+    # the verdict of a merged helper)
     eqs = {}
-    for b in task.blocks:
-        if b.cleanup or b.term.kind != "switch" or task.is_noise(b.term):
+    for bb, t in task.calls():
+        if task.is_noise(t):
             continue
-        e, ls = an.switch_info(b.idx)
-        x = flow.strip(e)
-        if x[0] == "call" and flow.short(x[1]).split("::")[-1] == "eq":
-            c = [flow.strip(a) for a in x[3]]
-            lit = [a for a in c if a[0] == "const" and isinstance(a[2], str)]
-            oth = [a for a in c if not (a[0] == "const")]
-            if lit and oth:
-                st = oth[0]
-                gets = calls_in(st, "HashMap::get") + calls_in(st, "::get")
-                from_state = any(flow.strip(gc[3][1])[0] == "constitem" and flow.strip(gc[3][1])[1].endswith("META_STATE") for gc in gets if len(gc[3]) > 1)
-                eqs[lit[0][2]] = (b.idx, ls, from_state)
+        nm = (cname(t) or dname(t)).split("::")[-1]
+        if nm not in ("eq", "ne") or len(t.args) != 2:
+            continue
+        c = [flow.strip(arg(an, bb, t, k)) for k in range(2)]
+        lit = [a for a in c if a[0] == "const" and isinstance(a[2], str)]
+        oth = [a for a in c if not (a[0] == "const")]
+        if lit and oth:
+            st = oth[0]
+            gets = calls_in(st, "HashMap::get") + calls_in(st, "::get")
+            from_state = any(flow.strip(gc[3][1])[0] == "constitem" and flow.strip(gc[3][1])[1].endswith("META_STATE") for gc in gets if len(gc[3]) > 1)
+            eqs[lit[0][2]] = (bb, nm == "ne", from_state)
     ctx.check(set(eqs) == {"Ready", "Allocated"} and all(v[2] for v in eqs.values()), RP, "C20/state-predicate/atoms", task.loc,
               reason="the upsert guard compares %s; expected target.meta[META_STATE] == \"Ready\" / \"Allocated\"" % {k: v[2] for k, v in eqs.items()},
               detail="guard atoms: state == Ready, state == Allocated (state = meta[\"state\"])")
     if set(eqs) == {"Ready", "Allocated"} and pushes:
-        te = []
-        fe = {}
-        for k, (bb, ls, _) in eqs.items():
-            te += [(bb, tb) for tb, l in ls.items() if "true" in l]
-            fe[k] = [(bb, tb) for tb, l in ls.items() if "false" in l]
+        # three scenarios (pv/sample.py): state is Ready / is Allocated / is neither
+        from ..sample import Scenario
+
+        def scen(ready, alloc):
+            cs = {}
+            for k, want in (("Ready", ready), ("Allocated", alloc)):
+                if want is not None:
+                    bbk, negated, _ = eqs[k]
+                    cs[bbk] = (not want) if negated else want
+            return Scenario(ctx, task, calls=cs, opt=False)
+        s_ready, s_alloc, s_none = scen(True, None), scen(False, True), scen(False, False)
+        first_bb = eqs["Ready"][0] if always_before(g, eqs["Ready"][0], eqs["Allocated"][0]) else eqs["Allocated"][0]
+
+        def iteration(scn):
+            """blocks reachable from the first comparison before the next loop iteration, in that scenario"""
+            starts = scn.g.nodes_of_bb(first_bb)
+            return set(scn.g.bb(n) for n in scn.g.reachable(starts, cut_nodes=[loop_head] if loop_head is not None else []))
+        it_ready, it_alloc, it_none = iteration(s_ready), iteration(s_alloc), iteration(s_none)
         for pb, pt in pushes:
-            okk, p = g.must_pass(pb, cut_edges=te)
-            ctx.check(okk, RP, "C20/state-predicate/upsert-needs-ready", site(task, pb),
-                      reason="a server can be added to the cache without being Ready or Allocated", detail="push dominated by state ∈ {Ready, Allocated}")
+            ctx.check(pb not in it_none and (pb in it_ready) and (pb in it_alloc), RP, "C20/state-predicate/upsert-needs-ready", site(task, pb),
+                      reason="a server can be added to the cache without being Ready or Allocated (or a Ready/Allocated one cannot)",
+                      detail="push reachable iff state ∈ {Ready, Allocated}")
+        nrem = {}
         for rb in rem_sites:
-            # removal (by state) must be unreachable once a true edge was taken
-            starts = []
-            for (_, tb) in te:
-                starts += g.nodes_of_bb(tb)
-            reach = set(g.bb(n) for n in g.reachable(starts, cut_nodes=[loop_head] if loop_head is not None else []))
-            ctx.check(rb not in reach, RP, "C20/state-predicate/ready-not-removed@%s" % site(task, rb).split(":")[-1], site(task, rb),
+            kind = (cname(task.blocks[rb].term) or dname(task.blocks[rb].term)).split("::")[-1]
+            nrem[kind] = nrem.get(kind, 0) + 1
+            ctx.check(rb not in it_ready and rb not in it_alloc, RP, "C20/state-predicate/ready-not-removed/%s#%d" % (kind, nrem[kind]), site(task, rb),
                       reason="a Ready/Allocated server can be removed from the cache in the same iteration", detail="no removal after a Ready/Allocated match")
-        # neither Ready nor Allocated: a removal is reached before the next iteration
-        both_false = None
-        # the false edge of the second comparison is reached only after the first was false
-        order = sorted(eqs.items(), key=lambda kv: 0 if always_before(g, kv[1][0], [v for k2, v in eqs.items() if k2 != kv[0]][0][0]) else 1)
-        last_false = fe[order[-1][0]]
-        starts = []
-        for (_, tb) in last_false:
-            starts += g.nodes_of_bb(tb)
-        pos = calls(task, ("Iterator::position", "Iterator::find", "retain"))
         if loop_head is not None:
-            p = g.path(starts, [loop_head], cut_nodes=[bb for bb, _ in calls(task, ("Iterator::position", "retain", "Vec::<T, A>::retain"))])
-            # ... and a found entry is really taken out: from the Some edge of the lookup every path to the next
-            # iteration passes a removing call (retain needs no lookup)
+            gn = s_none.g
+            starts = gn.nodes_of_bb(first_bb)
+            lookups = [bb for bb, _ in calls(task, ("Iterator::position", "retain", "Vec::<T, A>::retain"))]
+            p = gn.path(starts, [loop_head], cut_nodes=lookups)
+            # ... and a found entry is really taken out: from the Some edge of the lookup every path to the next iteration
+            # passes a removing call (retain needs no lookup)
             some_starts = []
             for b2 in task.blocks:
-                if b2.cleanup or b2.term.kind != "switch" or task.is_noise(b2.term):
+                if b2.cleanup or b2.term.kind != "switch" or task.is_noise(b2.term) or b2.idx not in it_none:
                     continue
-                e2, ls2 = an.switch_info(b2.idx)
+                e2, ls2 = an.switch_info(b2.idx, opt=True)
                 x2 = flow.strip(e2)
                 if x2[0] == "call" and flow.short(x2[1]).endswith(("Iterator::position", "Iterator::find")):
-                    reach_lf = set(g.bb(n) for n in g.reachable(starts, cut_nodes=[loop_head]))
-                    if b2.idx in reach_lf:
-                        for tb, l in ls2.items():
-                            if "Some" in l:
-                                some_starts += g.nodes_of_bb(tb)
+                    for tb, l in ls2.items():
+                        if "Some" in l:
+                            some_starts += gn.nodes_of_bb(tb)
             direct = [bb for bb, _ in calls(task, ("retain", "Vec::<T, A>::retain"))]
-            q = g.path(some_starts, [loop_head], cut_nodes=rem_sites) if some_starts else None
-            removed = (bool(some_starts) and q is None) or (not some_starts and any(bb in set(g.bb(n) for n in g.reachable(starts, cut_nodes=[loop_head])) for bb in direct))
+            q = gn.path(some_starts, [loop_head], cut_nodes=rem_sites) if some_starts else None
+            removed = (bool(some_starts) and q is None) or (not some_starts and any(bb in it_none for bb in direct))
             ctx.check(removed, RP, "C20/state-predicate/other-states-entry-dropped", task.loc,
                       reason="a cached server that moved to another state is looked up but not removed from the cache",
                       detail="found entry is removed (swap_remove/retain) before the next iteration")
